@@ -59,7 +59,10 @@ impl InkList {
             ink_list.items.insert(item.clone(), *value);
         }
 
-        ink_list.initial_origin_names = other_list.initial_origin_names.clone();
+        // As in the reference engine the copy remembers the origin names the
+        // other list has NOW (derived from its items while it has any), so
+        // that a list emptied by `-` still knows which lists it came from.
+        ink_list.initial_origin_names = RefCell::new(other_list.get_origin_names());
 
         ink_list.origins = other_list.origins.clone();
 
